@@ -6,7 +6,7 @@
 use crate::{s_seq, s_sim};
 use sim_rayon::sim::{SchedMode, Sim, SimConfig, SplitMode, Stats};
 use std::collections::BTreeMap;
-use vcore::case::{gen_case, Case, GenLimits};
+use vcore::case::{derive_variant, gen_case, Case, GenLimits};
 use vcore::digest::Outcome;
 use vcore::json::J;
 use vcore::rng::{mix, Rng};
@@ -55,6 +55,11 @@ pub struct HistOp {
     pub split: SplitMode,
     pub sched: SchedMode,
     pub hooks: bool,
+    /// Which of the plan's inputs (`Plan::cases`) the call is made with.
+    pub case: usize,
+    /// A second call running concurrently on the same pool (both are started
+    /// from one `join`, as when a caller parallelises over several tessellations).
+    pub with: Option<(OpKind, usize)>,
 }
 
 #[derive(Clone, Debug)]
@@ -65,8 +70,13 @@ pub struct Plan {
     pub mean_gap: u32,
     pub pct_depth: u32,
     pub sim_seed: u64,
-    pub case: Case,
+    /// `cases[0]` is the base input; the others are related inputs derived from
+    /// it (another mask, nudged generators, ...), see `vcore::case::derive_variant`.
+    pub cases: Vec<Case>,
     pub history: Vec<HistOp>,
+    /// Also compare the in-process sequential references with references
+    /// computed in a pristine helper process (state leaking through statics).
+    pub pristine: bool,
 }
 
 #[derive(Clone, Debug)]
@@ -117,18 +127,33 @@ pub fn plan_run(verif_seed: u64, run_index: u64, lim: &Limits) -> Plan {
         let p = pick_pool(&mut rng);
         pool_sizes.push(p);
     }
+    // related inputs for multi-call histories
+    let nvar = match rng.below(100) {
+        0..=44 => 0,
+        45..=79 => 1,
+        _ => 2,
+    };
+    let mut cases = vec![case];
+    for _ in 0..nvar {
+        let b = rng.below(cases.len() as u64) as usize;
+        let v = derive_variant(&mut rng, &cases[b]);
+        cases.push(v);
+    }
+    let ncase = cases.len() as u64;
     let n_ops = 2 + rng.below(5) as usize;
     let mut history: Vec<HistOp> = vec![];
     // swarm: a run favours one split / sched mode but mixes in others
     let fav_split = *rng.pick(SPLITS);
     let fav_sched = *rng.pick(&SCHEDS[1..]);
     for i in 0..n_ops {
-        let op = if i > 0 && rng.chance(0.3) {
+        let (op, case) = if i > 0 && rng.chance(0.3) {
             // repeated op: same call twice in one process
-            history[rng.below(i as u64) as usize].op
+            let h = &history[rng.below(i as u64) as usize];
+            (h.op, h.case)
         } else {
-            *rng.pick(ALL_OPS)
+            (*rng.pick(ALL_OPS), rng.below(ncase) as usize)
         };
+        let with = if rng.chance(0.12) { Some((*rng.pick(ALL_OPS), rng.below(ncase) as usize)) } else { None };
         let split = if rng.chance(0.6) { fav_split } else { *rng.pick(SPLITS) };
         let sched = if rng.chance(0.6) { fav_sched } else { *rng.pick(SCHEDS) };
         history.push(HistOp {
@@ -137,10 +162,12 @@ pub fn plan_run(verif_seed: u64, run_index: u64, lim: &Limits) -> Plan {
             split,
             sched,
             hooks: lim.allow_hooks && rng.chance(0.6),
+            case,
+            with,
         });
     }
-    // guarantee at least one repeated op
-    if history.iter().enumerate().all(|(i, a)| history[..i].iter().all(|b| b.op != a.op)) {
+    // guarantee at least one repeated call (same op on the same input)
+    if history.iter().enumerate().all(|(i, a)| history[..i].iter().all(|b| b.op != a.op || b.case != a.case)) {
         let j = rng.below(history.len() as u64) as usize;
         let mut h = history[j].clone();
         h.pool = rng.below(pool_sizes.len() as u64) as usize;
@@ -154,22 +181,44 @@ pub fn plan_run(verif_seed: u64, run_index: u64, lim: &Limits) -> Plan {
         mean_gap: *rng.pick(&[1u32, 2, 4, 8, 32, 128]),
         pct_depth: 1 + rng.below(3) as u32,
         sim_seed: rng.next_u64(),
-        case,
+        pristine: rng.chance(if nvar > 0 { 0.15 } else { 0.04 }),
+        cases,
         history,
     }
 }
 
 pub struct RunResult {
-    pub outcomes: Vec<Outcome>,
+    /// Outcome of every history op, and of its concurrent partner if it has one.
+    pub outcomes: Vec<(Outcome, Option<Outcome>)>,
     pub decisions: Vec<u32>,
     /// Length of the decision log at the start of each history op.
     pub marks: Vec<usize>,
     pub stats: Stats,
     pub op_hashes: Vec<(u64, u64, u64)>,
+    pub pristine_checked: u64,
 }
 
-/// Execute the history of `plan` under the simulator.
+/// Run `f` on an OS thread of its own (clean `thread_local!` state, own stack).
+pub fn fresh_thread<T: Send>(f: impl FnOnce() -> T + Send) -> T {
+    std::thread::scope(|s| {
+        std::thread::Builder::new()
+            .name("verif-fresh".into())
+            .stack_size(64 << 20)
+            .spawn_scoped(s, f)
+            .expect("spawn thread")
+            .join()
+            .expect("fresh thread panicked")
+    })
+}
+
+/// Execute the history of `plan` under the simulator. The simulated process'
+/// "main thread" (the driver) is a fresh OS thread, so nothing survives from
+/// earlier runs of this harness process except `static`s.
 pub fn exec_sim(plan: &Plan, replay: Option<Vec<u32>>, watchdog_s: u64) -> RunResult {
+    fresh_thread(move || exec_sim_inner(plan, replay, watchdog_s))
+}
+
+fn exec_sim_inner(plan: &Plan, replay: Option<Vec<u32>>, watchdog_s: u64) -> RunResult {
     let cfg = SimConfig {
         pool_sizes: plan.pool_sizes.clone(),
         split: SplitMode::Adaptive,
@@ -183,11 +232,20 @@ pub fn exec_sim(plan: &Plan, replay: Option<Vec<u32>>, watchdog_s: u64) -> RunRe
     sim.install();
     let mut outcomes = vec![];
     let mut marks = vec![];
+    let last = plan.cases.len() - 1;
     for h in &plan.history {
         marks.push(sim.decisions_len());
         sim.set_pool(h.pool.min(plan.pool_sizes.len() - 1));
         sim.set_modes(h.split, h.sched, h.hooks);
-        outcomes.push(s_sim::run_op(&plan.case, h.op));
+        let case = &plan.cases[h.case.min(last)];
+        match h.with {
+            None => outcomes.push((s_sim::run_op(case, h.op), None)),
+            Some((op2, c2)) => {
+                let case2 = &plan.cases[c2.min(last)];
+                let (a, b) = sim_rayon::join(|| s_sim::run_op(case, h.op), || s_sim::run_op(case2, op2));
+                outcomes.push((a, Some(b)));
+            }
+        }
     }
     Sim::uninstall();
     let r = RunResult {
@@ -196,18 +254,114 @@ pub fn exec_sim(plan: &Plan, replay: Option<Vec<u32>>, watchdog_s: u64) -> RunRe
         marks,
         stats: sim.stats(),
         op_hashes: sim.op_hashes(),
+        pristine_checked: 0,
     };
     sim.shutdown();
     r
 }
 
-/// Reference outcomes (sequential build, no rayon), one per distinct op kind.
-pub fn reference(case: &Case, history: &[HistOp]) -> BTreeMap<OpKind, Outcome> {
+pub type RefKey = (usize, OpKind);
+pub type Refs = BTreeMap<RefKey, Outcome>;
+
+/// The distinct (input, op) pairs of a history, in order of first use.
+pub fn ref_keys(plan: &Plan) -> Vec<RefKey> {
+    let last = plan.cases.len() - 1;
+    let mut v: Vec<RefKey> = vec![];
+    for h in &plan.history {
+        let k = (h.case.min(last), h.op);
+        if !v.contains(&k) {
+            v.push(k);
+        }
+        if let Some((op2, c2)) = h.with {
+            let k = (c2.min(last), op2);
+            if !v.contains(&k) {
+                v.push(k);
+            }
+        }
+    }
+    v
+}
+
+/// Reference outcomes (sequential build, no rayon), each computed on a fresh
+/// OS thread.
+pub fn reference(plan: &Plan) -> Refs {
     let mut m = BTreeMap::new();
-    for h in history {
-        m.entry(h.op).or_insert_with(|| s_seq::run_op(case, h.op));
+    for k in ref_keys(plan) {
+        let case = &plan.cases[k.0];
+        m.insert(k, fresh_thread(|| s_seq::run_op(case, k.1)));
     }
     m
+}
+
+/// The same references computed by a pristine helper process (`verif refproc`):
+/// no earlier call has touched any `static` there.
+pub fn pristine_reference(plan: &Plan) -> Result<BTreeMap<RefKey, String>, String> {
+    use std::io::Write;
+    use std::process::{Command, Stdio};
+    let keys = ref_keys(plan);
+    let req = J::obj()
+        .set("cases", J::arr(plan.cases.iter().map(|c| c.to_json())))
+        .set(
+            "reqs",
+            J::arr(keys.iter().map(|(c, op)| J::obj().set("case", J::u(*c as u64)).set("op", J::s(op.name())))),
+        );
+    let exe = std::env::current_exe().map_err(|e| e.to_string())?;
+    let mut child = Command::new(exe)
+        .arg("refproc")
+        .stdin(Stdio::piped())
+        .stdout(Stdio::piped())
+        .stderr(Stdio::null())
+        .spawn()
+        .map_err(|e| e.to_string())?;
+    child.stdin.take().unwrap().write_all(req.pretty().as_bytes()).map_err(|e| e.to_string())?;
+    let out = child.wait_with_output().map_err(|e| e.to_string())?;
+    let text = String::from_utf8_lossy(&out.stdout);
+    let mut m = BTreeMap::new();
+    for line in text.lines() {
+        if let Some(rest) = line.strip_prefix("REF ") {
+            let mut it = rest.splitn(3, ' ');
+            let c: usize = it.next().and_then(|x| x.parse().ok()).ok_or("bad REF line")?;
+            let op = it.next().and_then(OpKind::from_name).ok_or("bad REF op")?;
+            m.insert((c, op), it.next().unwrap_or("").to_string());
+        }
+    }
+    if m.len() != keys.len() {
+        return Err(format!("helper process returned {} of {} references (status {:?})", m.len(), keys.len(), out.status.code()));
+    }
+    Ok(m)
+}
+
+/// `verif refproc`: read {cases, reqs} from stdin, print one `REF` line per request.
+pub fn cmd_refproc() -> i32 {
+    use std::io::Read;
+    let mut text = String::new();
+    if std::io::stdin().read_to_string(&mut text).is_err() {
+        return 2;
+    }
+    let j = match J::parse(&text) {
+        Ok(j) => j,
+        Err(_) => return 2,
+    };
+    let cases: Vec<Case> = match j.get("cases").and_then(|c| c.as_arr()) {
+        Some(a) => match a.iter().map(Case::from_json).collect::<Result<Vec<_>, _>>() {
+            Ok(c) => c,
+            Err(_) => return 2,
+        },
+        None => return 2,
+    };
+    for r in j.get("reqs").and_then(|r| r.as_arr()).unwrap_or(&[]) {
+        let c = r.get("case").and_then(|c| c.as_u64()).unwrap_or(0) as usize;
+        let op = match r.get("op").and_then(|o| o.as_str()).and_then(OpKind::from_name) {
+            Some(o) => o,
+            None => return 2,
+        };
+        if c >= cases.len() {
+            return 2;
+        }
+        let o = fresh_thread(|| s_seq::run_op(&cases[c], op));
+        println!("REF {} {} {}", c, op.name(), o.to_line());
+    }
+    0
 }
 
 #[derive(Clone, Debug, PartialEq)]
@@ -217,13 +371,14 @@ pub struct Violation {
     pub component: String,
     pub sim: String,
     pub reference: String,
-    /// "sim_vs_seq" or "seq_not_repeatable"
+    /// "sim_vs_seq", "seq_not_repeatable" or "seq_depends_on_process_history"
     pub class: String,
 }
 
-pub fn compare(plan: &Plan, outcomes: &[Outcome], refs: &BTreeMap<OpKind, Outcome>) -> Option<Violation> {
-    for (i, (h, o)) in plan.history.iter().zip(outcomes).enumerate() {
-        let r = &refs[&h.op];
+pub fn compare(plan: &Plan, outcomes: &[(Outcome, Option<Outcome>)], refs: &Refs) -> Option<Violation> {
+    let last = plan.cases.len() - 1;
+    for (i, (h, (o, o2))) in plan.history.iter().zip(outcomes).enumerate() {
+        let r = &refs[&(h.case.min(last), h.op)];
         if let Some((component, a, b)) = o.first_diff(r) {
             return Some(Violation {
                 op_index: i,
@@ -234,27 +389,52 @@ pub fn compare(plan: &Plan, outcomes: &[Outcome], refs: &BTreeMap<OpKind, Outcom
                 class: "sim_vs_seq".into(),
             });
         }
+        if let (Some((op2, c2)), Some(o2)) = (h.with, o2) {
+            let r = &refs[&(c2.min(last), op2)];
+            if let Some((component, a, b)) = o2.first_diff(r) {
+                return Some(Violation {
+                    op_index: i,
+                    op: op2,
+                    component: format!("concurrent:{}", component),
+                    sim: a,
+                    reference: b,
+                    class: "sim_vs_seq".into(),
+                });
+            }
+        }
     }
     None
+}
+
+fn empty_result() -> RunResult {
+    RunResult {
+        outcomes: vec![],
+        decisions: vec![],
+        marks: vec![],
+        stats: Stats::default(),
+        op_hashes: vec![],
+        pristine_checked: 0,
+    }
 }
 
 /// Run one plan end to end. `check_ref_repeat`: also demand that the
 /// sequential reference itself is repeatable inside this process.
 pub fn run_plan(plan: &Plan, replay: Option<Vec<u32>>, watchdog_s: u64, check_ref_repeat: bool) -> (RunResult, Option<Violation>) {
-    let refs = reference(&plan.case, &plan.history);
+    let refs = reference(plan);
+    let last = plan.cases.len() - 1;
+    let first_use = |k: &RefKey| -> usize {
+        plan.history
+            .iter()
+            .position(|h| (h.case.min(last), h.op) == *k || h.with.map_or(false, |(o, c)| (c.min(last), o) == *k))
+            .unwrap_or(0)
+    };
     if check_ref_repeat {
         let h0 = &plan.history[0];
-        let again = s_seq::run_op(&plan.case, h0.op);
-        if let Some((component, a, b)) = again.first_diff(&refs[&h0.op]) {
-            let r = RunResult {
-                outcomes: vec![],
-                decisions: vec![],
-                marks: vec![],
-                stats: Stats::default(),
-                op_hashes: vec![],
-            };
+        let k = (h0.case.min(last), h0.op);
+        let again = s_seq::run_op(&plan.cases[k.0], h0.op);
+        if let Some((component, a, b)) = again.first_diff(&refs[&k]) {
             return (
-                r,
+                empty_result(),
                 Some(Violation {
                     op_index: 0,
                     op: h0.op,
@@ -266,7 +446,38 @@ pub fn run_plan(plan: &Plan, replay: Option<Vec<u32>>, watchdog_s: u64, check_re
             );
         }
     }
-    let r = exec_sim(plan, replay, watchdog_s);
+    let mut pristine_checked = 0;
+    if plan.pristine {
+        match pristine_reference(plan) {
+            Ok(p) => {
+                for (k, line) in &p {
+                    pristine_checked += 1;
+                    if refs[k].to_line() != *line {
+                        let (component, a, b) = Outcome::from_line(line)
+                            .and_then(|po| refs[k].first_diff(&po))
+                            .unwrap_or(("outcome".into(), refs[k].short(), "differs".into()));
+                        return (
+                            empty_result(),
+                            Some(Violation {
+                                op_index: first_use(k),
+                                op: k.1,
+                                component,
+                                sim: a,
+                                reference: b,
+                                class: "seq_depends_on_process_history".into(),
+                            }),
+                        );
+                    }
+                }
+            }
+            Err(e) => {
+                eprintln!("HARNESS: pristine reference unavailable: {}", e);
+                std::process::exit(2);
+            }
+        }
+    }
+    let mut r = exec_sim(plan, replay, watchdog_s);
+    r.pristine_checked = pristine_checked;
     let v = compare(plan, &r.outcomes, &refs);
     (r, v)
 }
@@ -312,7 +523,8 @@ pub fn plan_to_json(plan: &Plan) -> J {
                 .set("pct_depth", J::u(plan.pct_depth as u64))
                 .set("sim_seed", J::s(&plan.sim_seed.to_string())),
         )
-        .set("case", plan.case.to_json())
+        .set("cases", J::arr(plan.cases.iter().map(|c| c.to_json())))
+        .set("pristine", J::Bool(plan.pristine))
         .set(
             "history",
             J::arr(plan.history.iter().map(|h| {
@@ -322,6 +534,14 @@ pub fn plan_to_json(plan: &Plan) -> J {
                     .set("split", J::s(split_name(h.split)))
                     .set("sched", J::s(sched_name(h.sched)))
                     .set("hooks", J::Bool(h.hooks))
+                    .set("case", J::u(h.case as u64))
+                    .set(
+                        "with",
+                        match h.with {
+                            None => J::Null,
+                            Some((op2, c2)) => J::obj().set("op", J::s(op2.name())).set("case", J::u(c2 as u64)),
+                        },
+                    )
             })),
         )
 }
@@ -340,6 +560,14 @@ pub fn plan_from_json(j: &J) -> Result<Plan, String> {
                 split: split_from(h.get("split").and_then(|o| o.as_str()).unwrap_or("adaptive")).ok_or("unknown split")?,
                 sched: sched_from(h.get("sched").and_then(|o| o.as_str()).unwrap_or("seq")).ok_or("unknown sched")?,
                 hooks: h.get("hooks").and_then(|b| b.as_bool()).unwrap_or(false),
+                case: h.get("case").and_then(|p| p.as_u64()).unwrap_or(0) as usize,
+                with: match h.get("with") {
+                    None | Some(J::Null) => None,
+                    Some(w) => Some((
+                        OpKind::from_name(w.get("op").and_then(|o| o.as_str()).ok_or("with.op missing")?).ok_or("unknown op")?,
+                        w.get("case").and_then(|p| p.as_u64()).unwrap_or(0) as usize,
+                    )),
+                },
             })
         })
         .collect::<Result<Vec<_>, String>>()?;
@@ -356,7 +584,11 @@ pub fn plan_from_json(j: &J) -> Result<Plan, String> {
         mean_gap: cfg.get("mean_gap").and_then(|s| s.as_u64()).unwrap_or(8) as u32,
         pct_depth: cfg.get("pct_depth").and_then(|s| s.as_u64()).unwrap_or(1) as u32,
         sim_seed: cfg.get("sim_seed").and_then(|s| s.as_str()).and_then(|s| s.parse().ok()).unwrap_or(0),
-        case: Case::from_json(j.get("case").ok_or("case missing")?)?,
+        cases: match j.get("cases").and_then(|c| c.as_arr()) {
+            Some(a) if !a.is_empty() => a.iter().map(Case::from_json).collect::<Result<Vec<_>, _>>()?,
+            _ => vec![Case::from_json(j.get("case").ok_or("cases missing")?)?],
+        },
+        pristine: j.get("pristine").and_then(|b| b.as_bool()).unwrap_or(false),
         history,
     })
 }
@@ -489,6 +721,49 @@ pub fn minimise(plan: &Plan, decisions: &[u32], marks: &[usize], v: &Violation, 
         }
     }
 
+    // 1a. simpler histories: no concurrent partner, fewer distinct inputs
+    for i in 0..best_plan.history.len() {
+        if best_plan.history[i].with.is_some() {
+            let mut p = best_plan.clone();
+            p.history[i].with = None;
+            if let Some(f) = try_cand(&p, &best_dec, 2, &mut evals) {
+                accept!(f, format!("op {}: no concurrent partner", i));
+            }
+        }
+    }
+    for i in 0..best_plan.history.len() {
+        if best_plan.history[i].case != 0 {
+            let mut p = best_plan.clone();
+            p.history[i].case = 0;
+            if let Some(f) = try_cand(&p, &best_dec, 2, &mut evals) {
+                accept!(f, format!("op {}: base input instead of variant", i));
+            }
+        }
+    }
+    if best_plan.pristine && best_v.class != "seq_depends_on_process_history" {
+        best_plan.pristine = false;
+    }
+    {
+        // drop inputs no call refers to any more
+        let used: Vec<usize> = (0..best_plan.cases.len())
+            .filter(|&c| best_plan.history.iter().any(|h| h.case == c || h.with.map_or(false, |(_, w)| w == c)))
+            .collect();
+        if used.len() < best_plan.cases.len() && !used.is_empty() {
+            let remap = |c: usize| used.iter().position(|&u| u == c).unwrap_or(0);
+            let mut p = best_plan.clone();
+            p.cases = used.iter().map(|&u| best_plan.cases[u].clone()).collect();
+            for h in p.history.iter_mut() {
+                h.case = remap(h.case);
+                if let Some((o, w)) = h.with {
+                    h.with = Some((o, remap(w)));
+                }
+            }
+            if let Some(f) = try_cand(&p, &best_dec, 1, &mut evals) {
+                accept!(f, format!("kept {} of the inputs", used.len()));
+            }
+        }
+    }
+
     // 1b. prefer simpler, more aggressive modes (they reproduce more reliably
     //     on smaller inputs than e.g. PCT with far-away change points)
     for i in 0..best_plan.history.len() {
@@ -515,33 +790,35 @@ pub fn minimise(plan: &Plan, decisions: &[u32], marks: &[usize], v: &Violation, 
         }
     }
 
-    // 2. drop generators (big chunks first)
-    let mut chunk = (best_plan.case.gens.len() / 2).max(1);
-    loop {
-        let mut start = 0;
-        let mut progressed = false;
-        while start < best_plan.case.gens.len() && best_plan.case.gens.len() > 1 && evals < budget {
-            let end = (start + chunk).min(best_plan.case.gens.len());
-            if end - start >= best_plan.case.gens.len() {
+    // 2. drop generators (big chunks first), input by input
+    for ci in 0..best_plan.cases.len() {
+        let mut chunk = (best_plan.cases[ci].gens.len() / 2).max(1);
+        loop {
+            let mut start = 0;
+            let mut progressed = false;
+            while start < best_plan.cases[ci].gens.len() && best_plan.cases[ci].gens.len() > 1 && evals < budget {
+                let end = (start + chunk).min(best_plan.cases[ci].gens.len());
+                if end - start >= best_plan.cases[ci].gens.len() {
+                    break;
+                }
+                let mut p = best_plan.clone();
+                p.cases[ci].gens.drain(start..end);
+                if let Some(m) = &mut p.cases[ci].mask {
+                    m.drain(start..end);
+                }
+                if let Some(f) = try_cand(&p, &best_dec, 3, &mut evals) {
+                    accept!(f, format!("input {}: dropped generators {}..{}", ci, start, end));
+                    progressed = true;
+                } else {
+                    start += chunk;
+                }
+            }
+            if evals >= budget || (chunk == 1 && !progressed) {
                 break;
             }
-            let mut p = best_plan.clone();
-            p.case.gens.drain(start..end);
-            if let Some(m) = &mut p.case.mask {
-                m.drain(start..end);
+            if chunk > 1 {
+                chunk /= 2;
             }
-            if let Some(f) = try_cand(&p, &best_dec, 3, &mut evals) {
-                accept!(f, format!("dropped generators {}..{}", start, end));
-                progressed = true;
-            } else {
-                start += chunk;
-            }
-        }
-        if evals >= budget || (chunk == 1 && !progressed) {
-            break;
-        }
-        if chunk > 1 {
-            chunk /= 2;
         }
     }
 
